@@ -10,6 +10,7 @@ import (
 	"github.com/ipfs/go-cid"
 	"github.com/ipfs/go-unixfsnode"
 	"github.com/ipfs/go-unixfsnode/data/builder"
+	"github.com/ipfs/go-unixfsnode/file"
 	"github.com/ipld/go-ipld-prime"
 	"github.com/ipld/go-ipld-prime/datamodel"
 	"github.com/ipld/go-ipld-prime/linking"
@@ -47,7 +48,32 @@ var entityForms = []accessForm{
 	}},
 	{"preload-selector", walkWith(unixfsnode.MatchUnixFSPreloadSelector, func(traversal.Progress, datamodel.Node) error { return nil })},
 	{"entity-selector", walkWith(unixfsnode.MatchUnixFSEntitySelector, unixfsnode.BytesConsumingMatcher)},
+	// the same walk under a traversal budget that allows no further link to be followed by the walker:
+	// the entity's own blocks are loaded by the entity, not by the walker
+	{"entity-selector-linkbudget0", func(ls *ipld.LinkSystem, raw ipld.Node) error {
+		sel, err := selector.CompileSelector(unixfsnode.MatchUnixFSEntitySelector.Node())
+		if err != nil {
+			return fmt.Errorf("harness: selector does not compile: %w", err)
+		}
+		prog := progressFor(ls)
+		prog.Budget = &traversal.Budget{NodeBudget: 1 << 40, LinkBudget: 0}
+		return prog.WalkMatching(raw, sel, unixfsnode.BytesConsumingMatcher)
+	}},
+	// the preloading file constructor handed a node that is already a lazily reified file
+	{"preload-constructor-on-lazy-file", func(ls *ipld.LinkSystem, raw ipld.Node) error {
+		lazy, err := unixfsnode.Reify(ipld.LinkContext{Ctx: bg}, raw, ls)
+		if err != nil {
+			return err
+		}
+		if lazy.Kind() != datamodel.Kind_Bytes {
+			return errFormNA
+		}
+		_, err = file.NewUnixFSFileWithPreload(bg, lazy, ls)
+		return err
+	}},
 }
+
+var errFormNA = fmt.Errorf("access form does not apply to this entity")
 
 // entity describes what a preload/entity access must fetch.
 type entity struct {
@@ -147,6 +173,9 @@ func checkEntity(c *mon.Case, e *entity, faults bool) {
 		if !c.Guard(form.Name, func() { rerr = form.Run(ls, raw) }) {
 			continue
 		}
+		if rerr == errFormNA {
+			continue
+		}
 		if rerr != nil {
 			c.Violation("C06|access-error|"+form.Name, "%s on complete %s %s failed: %v", form.Name, e.Kind, e.Name, rerr)
 			continue
@@ -181,7 +210,7 @@ func checkEntity(c *mon.Case, e *entity, faults bool) {
 				if (ek == 1 || ek == 3) && i%3 != ek%3 && len(e.Blocks) > 12 {
 					continue // second error kind on a third of the blocks of big entities
 				}
-				if ek == 2 && (form.Name != "preload-reifier" || (i%2 != 0 && len(e.Blocks) > 12)) {
+				if ek == 2 && ((form.Name != "preload-reifier" && form.Name != "preload-constructor-on-lazy-file") || (i%2 != 0 && len(e.Blocks) > 12)) {
 					// traversal.SkipMe is a signalling error that a *traversal* may act on; only the
 					// direct reifier call is judged with it
 					continue
